@@ -350,6 +350,35 @@ type clientRig struct {
 	stats    *recStats
 	payloads []int64
 	wfailOn  bool
+	wrFailed map[int]bool // streams one of whose SendMsg / CloseSend failed with the transport's write error
+}
+
+// classFor canonicalises one known benign race that Model/Client.v does not split (found by cw, coordinator's ruling:
+// neither a finding nor a /repo fix): after a SendMsg failed with a transport write error, clientStream.teardown
+// unregisters (closes the handler) and only then cancels the stream context; the stream loop parked in Read can wake
+// in between and end with "respChan closed" instead of Canceled (9/300 under load). The model's failing-send teardown
+// is atomic (always Canceled). For operations on a stream AFTER one of its sends failed with the write error,
+// EClosed is therefore reported as ECanceled.
+func (r *clientRig) classFor(c int, err error) string {
+	cl := classOf(err)
+	r.mu.Lock()
+	defer r.mu.Unlock()
+	if r.wrFailed == nil {
+		r.wrFailed = map[int]bool{}
+	}
+	if cl == "EWrite" {
+		r.wrFailed[c] = true
+	} else if cl == "EClosed" && r.wrFailed[c] {
+		return "ECanceled"
+	}
+	return cl
+}
+
+func (r *clientRig) optErrFor(c int, err error) string {
+	if err == nil {
+		return "None"
+	}
+	return "(Some " + r.classFor(c, err) + ")"
 }
 
 func (r *clientRig) ev(s string) {
@@ -517,7 +546,7 @@ func (r *clientRig) do(a CAct) {
 			} else if err == nil {
 				r.ev(fmt.Sprintf("EvRecvRet %d (RMsg %s)", c, coqZ(tokenOf(m.Value))))
 			} else {
-				r.ev(fmt.Sprintf("EvRecvRet %d (RErr %s)", c, classOf(err)))
+				r.ev(fmt.Sprintf("EvRecvRet %d (RErr %s)", c, r.classFor(c, err)))
 			}
 			r.setPending(k, false)
 		}()
@@ -533,7 +562,7 @@ func (r *clientRig) do(a CAct) {
 		r.setPending(k, true)
 		go func() {
 			err := cs.SendMsg(&wrapperspb.BytesValue{Value: payloadOf(b)})
-			r.ev(fmt.Sprintf("EvSendRet %d %s", c, optErr(err)))
+			r.ev(fmt.Sprintf("EvSendRet %d %s", c, r.optErrFor(c, err)))
 			r.setPending(k, false)
 		}()
 	case "closesend":
@@ -546,7 +575,7 @@ func (r *clientRig) do(a CAct) {
 		r.setPending(k, true)
 		go func() {
 			err := cs.CloseSend()
-			r.ev(fmt.Sprintf("EvCloseSendRet %d %s", c, optErr(err)))
+			r.ev(fmt.Sprintf("EvCloseSendRet %d %s", c, r.optErrFor(c, err)))
 			r.setPending(k, false)
 		}()
 	case "header":
@@ -560,7 +589,7 @@ func (r *clientRig) do(a CAct) {
 		go func() {
 			md, err := cs.Header()
 			if err != nil {
-				r.ev(fmt.Sprintf("EvHeaderRet %d (inr %s)", c, classOf(err)))
+				r.ev(fmt.Sprintf("EvHeaderRet %d (inr %s)", c, r.classFor(c, err)))
 			} else {
 				r.ev(fmt.Sprintf("EvHeaderRet %d (inl (MdOk %s))", c, coqZ(mdTokenOf(md))))
 			}
